@@ -64,6 +64,18 @@ Fixpoint stk_init (max_seek : N) (st : stk) (data : bytes) : Adapters.rst (stk_r
   | SAin s => stk_init max_seek s data
   end.
 
+(* the same with the bottom cursor already advanced to [pos] when the stack is handed to the sanitizer (a caller that read a
+   prefix off its reader first): positions the sanitizer reports are the reader's own, i.e. absolute *)
+Fixpoint stk_init_at (pos : N) (max_seek : N) (st : stk) (data : bytes) : Adapters.rst (stk_reader max_seek st) :=
+  match st return Adapters.rst (stk_reader max_seek st) with
+  | SCursor sizes => {| cc_cur := {| cdata := data; cpos := pos |}; cc_sizes := sizes; cc_idx := O |}
+  | SSeek sizes => {| cc_cur := {| cdata := data; cpos := pos |}; cc_sizes := sizes; cc_idx := O |}
+  | SBuf cap s => buf_init (stk_reader max_seek s) (stk_init_at pos max_seek s data)
+  | SFBuf cap s => buf_init (stk_reader max_seek s) (stk_init_at pos max_seek s data)
+  | SFwd s => stk_init_at pos max_seek s data
+  | SAin s => stk_init_at pos max_seek s data
+  end.
+
 (* every BufReader of the stack has a capacity >= 1 *)
 Fixpoint stk_ok (st : stk) : Prop :=
   match st with
@@ -128,6 +140,11 @@ Definition mp4_view (sync_entry : bool) (max_seek : N) (st : stk) : Prog.reader 
   stack_reader 32 false max_seek (if sync_entry then SAin st else st).
 Definition mp4_view_init (sync_entry : bool) (max_seek : N) (st : stk) (data : bytes) :=
   stack_init max_seek (if sync_entry then SAin st else st) data.
+
+Definition stack_init_at (pos : N) (max_seek : N) (st : stk) (data : bytes) : bst (Adapters.rst (stk_reader max_seek st)) :=
+  buf_init (stk_reader max_seek st) (stk_init_at pos max_seek st data).
+Definition mp4_view_init_at (pos : N) (sync_entry : bool) (max_seek : N) (st : stk) (data : bytes) :=
+  stack_init_at pos max_seek (if sync_entry then SAin st else st) data.
 
 (* webpsan: ChunkReader::new wraps the caller's input in a std BufReader(ChunkHeader::ENCODED_LEN = 8); synchronous only *)
 Definition webp_view (max_seek : N) (st : stk) : Prog.reader := stack_reader 8 true max_seek st.
